@@ -19,6 +19,8 @@ import (
 	rt "github.com/teleport-network/teleport/zzverifrt"
 )
 
+var c13AssumeNoSlash bool
+
 func genesisKeeper() keeper.Keeper {
 	return keeper.NewKeeper(rt.Codec(), rt.StoreKey(host.StoreKey), paramtypes.Subspace{}, nil)
 }
@@ -40,7 +42,9 @@ func anyHeight(tag string) (types.Height, bool) {
 }
 
 // VerifC13ClientGenesis: export the client module's state, validate it, import it into an empty store, compare, re-export.
-func VerifC13ClientGenesis() {
+func VerifC13ClientGenesis() { c13ClientGenesis() }
+
+func c13ClientGenesis() {
 	rt.Opt("structured-keys")
 	rt.RegisterInterfaces(types.RegisterInterfaces)
 	rt.RegisterInterfaces(tsstypes.RegisterInterfaces)
@@ -63,6 +67,9 @@ func VerifC13ClientGenesis() {
 	var cs exported.ClientState
 	var cons exported.ConsensusState
 	h, slash := anyHeight("consensus")
+	if c13AssumeNoSlash {
+		rt.Assume(!slash) // the C15 entry is about the import only; heights with a separator byte are the recorded finding H3 (C13, C19)
+	}
 	store := k.ClientStore(src, chain)
 	switch kind {
 	case 0: // Tendermint, with the metadata its update writes
